@@ -26,6 +26,9 @@ use std::time::{Duration, Instant};
 use vmodel::schema::{Env, Logical, RSchema};
 use vmodel::value::{Canonical, RValue, Verdict};
 
+#[path = "c04_scratch.rs"]
+mod scratch;
+
 // ---------------------------------------------------------------------------------------------
 // Typed targets
 
@@ -1130,6 +1133,27 @@ pub fn worker(args: &[String]) -> i32 {
 			}
 			0
 		}
+		Some("templates") => {
+			// `templates <from>`: the scratch-buffer cases of c04_scratch.rs, one after the other
+			let from: usize = args.get(1).and_then(|s| s.parse().ok()).unwrap_or(0);
+			let all = scratch::cases();
+			let (mut decodes, mut demanded, mut refused_after_fill, mut accepted) = (0u64, 0u64, 0u64, 0u64);
+			for (i, c) in all.iter().enumerate().skip(from) {
+				println!("S {i}");
+				watchdog::begin_seed(i, 3.0);
+				let o = scratch::run_case(c);
+				watchdog::end();
+				decodes += o.decodes;
+				demanded += o.demanded as u64;
+				refused_after_fill += o.refused_after_fill as u64;
+				accepted += o.accepted_within_cap as u64;
+				if !o.violations.is_empty() {
+					println!("D {i} {}", json!({"violations": o.violations}));
+				}
+			}
+			println!("R {}", json!({"cases": all.len() - from.min(all.len()), "decodes": decodes, "demanded": demanded, "refused_after_fill": refused_after_fill, "accepted_within_cap": accepted}));
+			0
+		}
 		Some("seedlist") => {
 			for (i, s) in seeds(args.get(1).map_or(false, |t| t == "thorough")).iter().enumerate() {
 				println!("{i}: {}", seed_what(s));
@@ -1152,6 +1176,12 @@ pub fn worker(args: &[String]) -> i32 {
 }
 
 fn replay_case(r: &Value) -> (Vec<(String, String)>, String) {
+	if r["kind"] == "template" {
+		let all = scratch::cases();
+		let i = r["index"].as_u64().unwrap() as usize;
+		let o = scratch::run_case(&all[i]);
+		return (o.violations, format!("demand made: {}, refused after the scratch buffer was filled: {}", o.demanded, o.refused_after_fill));
+	}
 	if r["kind"] == "seed" {
 		let thorough = r["tier"] == "thorough";
 		let i = r["seed"].as_u64().unwrap() as usize;
@@ -1405,6 +1435,76 @@ fn drive_seeds(tier: &str, rep: &mut Report, per_seed: Duration, lane: usize, la
 	}
 }
 
+/// Runs the scratch-buffer templates in a worker, restarting behind a crashing / timed-out case.
+fn drive_templates(rep: &mut Report) {
+	let all = scratch::cases();
+	let mut from = 0usize;
+	let mut clean = true;
+	while from < all.len() {
+		let mut current: Option<usize> = None;
+		let mut found: Vec<(usize, Value)> = Vec::new();
+		let mut summary: Option<Value> = None;
+		let mut timed_out: Option<Value> = None;
+		let end = spawn_worker(&["templates".into(), from.to_string()], Duration::from_secs(900), Duration::from_secs(3600), |l| {
+			if let Some(i) = l.strip_prefix("S ") {
+				current = i.trim().parse().ok();
+			} else if let Some(rest) = l.strip_prefix("D ") {
+				let (i, j) = rest.split_once(' ').unwrap_or((rest, "null"));
+				if let (Ok(i), Ok(v)) = (i.parse::<usize>(), serde_json::from_str::<Value>(j)) {
+					found.push((i, v));
+				}
+			} else if let Some(j) = l.strip_prefix("R ") {
+				summary = serde_json::from_str(j).ok();
+			} else if let Some(j) = l.strip_prefix("T ") {
+				timed_out = serde_json::from_str(j).ok();
+			}
+		});
+		for (i, v) in &found {
+			for x in v["violations"].as_array().into_iter().flatten() {
+				let class = x[0].as_str().unwrap_or("?");
+				rep.violation(class, format!("{}: {}", scratch::describe(&all[*i]), x[1].as_str().unwrap_or("")), json!({"check": "C04", "kind": "template", "index": i, "class": class}));
+			}
+		}
+		let done_until = current.map_or(from, |c| c + 1);
+		let n = (done_until - from) as u64;
+		rep.cover.states += n;
+		rep.cover.evaluations += n;
+		rep.cover.count("scratch_template_cases", n);
+		if let Some(s) = &summary {
+			rep.cover.impl_runs += s["decodes"].as_u64().unwrap_or(0);
+			rep.cover.count("scratch_cases_where_a_field_above_the_cap_must_be_refused", s["demanded"].as_u64().unwrap_or(0));
+			rep.cover.count("scratch_filled_to_the_cap_then_larger_field_refused", s["refused_after_fill"].as_u64().unwrap_or(0));
+			rep.cover.count("scratch_gathered_fields_within_the_cap_accepted", s["accepted_within_cap"].as_u64().unwrap_or(0));
+		} else {
+			rep.cover.impl_runs += n;
+		}
+		match end {
+			End::Exited(0) if summary.is_some() => break,
+			End::Exited(EXIT_TIMEOUT) if timed_out.is_some() => {
+				let t = timed_out.unwrap();
+				let i = t["seed"].as_u64().unwrap_or(0) as usize;
+				rep.violation("timeout", format!("{}: {}", scratch::describe(&all[i]), timeout_what(t["cpu_s"].as_f64().unwrap_or(0.0), t["wall_s"].as_f64().unwrap_or(0.0))), json!({"check": "C04", "kind": "template", "index": i, "class": "timeout"}));
+				clean = false;
+				from = i + 1;
+			}
+			End::Signaled(sig) => {
+				let Some(i) = current else { machinery("C04 template worker died before its first case") };
+				rep.violation("abort", format!("{}: the process was killed ({sig}: stack overflow / allocation failure / abort)", scratch::describe(&all[i])), json!({"check": "C04", "kind": "template", "index": i, "class": "abort"}));
+				clean = false;
+				from = i + 1;
+			}
+			End::Exited(c) => machinery(&format!("C04 template worker exited with code {c}")),
+			End::TimedOut => machinery("C04 template worker exceeded its horizon without any case exceeding its CPU horizon"),
+		}
+	}
+	for i in 0..all.len().min(200_000) {
+		rep.cover.nontrivial.insert(hash64(&("template", i)));
+	}
+	if clean {
+		rep.cover.count("scratch_templates_completed", 1);
+	}
+}
+
 // ---------------------------------------------------------------------------------------------
 
 pub fn run(rep: &mut Report) {
@@ -1413,7 +1513,7 @@ pub fn run(rep: &mut Report) {
 	let us = units(thorough);
 	let p = params(thorough, us.iter().filter(|u| !u.hostile).count());
 	rep.rule = format!(
-		"Explicit-state search over the decoder's input-consumption tree, one tree per schema: {} hostile schemas (zero-byte elements, recursion, length-prefixed and decimal leaves; node cap {}) + the shared alphabet Σ_S level {} ({} schemas; node cap {}). Root = empty input; a prefix p is expanded by every byte of Σ_B = {{00,01,02,03,04,7f,80,81,fe,ff}} iff decoding p over a 1-byte-refill reader under the generous limits ended in Err after the reader had reported end of input, for at least one target (inside a fixed-size read the alphabet shrinks to {{00,ff}}); depth <= {} bytes. Every node is decoded under limits G=(allowed_depth 64, max_seq_size 1000, max_alloc_size 64) on slice / 1-byte-refill reader / one-refill reader with targets deserialize_any observation, IgnoredAny, non-allocating fold (+ a typed Rust target — borrowed struct, Vec, BTreeMap, recursive Box list, &str, &[u8], Decimal — for {} hostile schemas), and with one limit tightened at a time: allowed_depth in {{0,1,2}}, max_seq_size in {{0,1,3}} (fold, deserialize_any, IgnoredAny and the typed target — among them a struct that lacks a nested-array field), max_alloc_size in {{0,1,8}}. Oracle per decode: returns (no panic; abort = death of the worker subprocess, attributed by a traced re-run; a decode still running after 2 s of CPU is killed by the worker's own watchdog and reported as class timeout with exactly that decode, one that returns after more than 0.05 s of CPU as work-not-bounded); if the reference model accepts the input as a datum whose nesting / longest array or map / largest slice-delivered field (reader, >= 2 bytes, i.e. not already buffered) exceeds the configured limit then Err; Ok on the slice path with a non-allocating target => 0 heap allocations; peak live heap <= {} + max_alloc_size + |input| (non-allocating targets; 64·|input| for typed ones); fill_buf/read calls <= 4·|input| + 2·(values delivered; max_seq_size·|input| when unknown) + 16. Plus {} literal adversarial seeds under the crate's default limits (i64::MIN block counts, 2^62 / i64::MAX / negative lengths, 10^9 zero-byte elements at and above max_seq_size, 10^5-deep recursion, depth ladders around 64, default 512 MiB allocation cap). Non-trivial: nodes of >= 2 bytes, nodes where a limit must reject a model-valid datum, and seeds; tree nodes are pairwise distinct (schema, byte string) pairs by construction.",
+		"Explicit-state search over the decoder's input-consumption tree, one tree per schema: {} hostile schemas (zero-byte elements, recursion, length-prefixed and decimal leaves; node cap {}) + the shared alphabet Σ_S level {} ({} schemas; node cap {}). Root = empty input; a prefix p is expanded by every byte of Σ_B = {{00,01,02,03,04,7f,80,81,fe,ff}} iff decoding p over a 1-byte-refill reader under the generous limits ended in Err after the reader had reported end of input, for at least one target (inside a fixed-size read the alphabet shrinks to {{00,ff}}); depth <= {} bytes. Every node is decoded under limits G=(allowed_depth 64, max_seq_size 1000, max_alloc_size 64) on slice / 1-byte-refill reader / one-refill reader with targets deserialize_any observation, IgnoredAny, non-allocating fold (+ a typed Rust target — borrowed struct, Vec, BTreeMap, recursive Box list, &str, &[u8], Decimal — for {} hostile schemas), and with one limit tightened at a time: allowed_depth in {{0,1,2}}, max_seq_size in {{0,1,3}} (fold, deserialize_any, IgnoredAny and the typed target — among them a struct that lacks a nested-array field), max_alloc_size in {{0,1,8}}. Oracle per decode: returns (no panic; abort = death of the worker subprocess, attributed by a traced re-run; a decode still running after 2 s of CPU is killed by the worker's own watchdog and reported as class timeout with exactly that decode, one that returns after more than 0.05 s of CPU as work-not-bounded); if the reference model accepts the input as a datum whose nesting / longest array or map / largest slice-delivered field (reader, >= 2 bytes, i.e. not already buffered) exceeds the configured limit then Err; Ok on the slice path with a non-allocating target => 0 heap allocations; peak live heap <= {} + max_alloc_size + |input| (non-allocating targets; 64·|input| for typed ones); fill_buf/read calls <= 4·|input| + 2·(values delivered; max_seq_size·|input| when unknown) + 16. Plus {} literal adversarial seeds under the crate's default limits (i64::MIN block counts, 2^62 / i64::MAX / negative lengths, 10^9 zero-byte elements at and above max_seq_size, 10^5-deep recursion, depth ladders around 64, default 512 MiB allocation cap). Plus the scratch-buffer templates (c04_scratch.rs, {} cases): a length-prefixed field of exactly max_alloc_size bytes followed by one of cap .. 2·cap+1 bytes (all sizes for caps 1, 8, 64; 7 sizes for cap 1000) as the next record field, array item (same and next block), map key / value, union branch, the next datum decoded from the same ReaderRead (same DeserializerState, or a new one around into_reader()), the next block of a null-codec container file (Reader::new over a capped ReaderRead); readers: slice, uniform refills of 1..7, 16, 64 bytes, one refill, std BufReader capacity 8 and 32; targets fold / IgnoredAny / deserialize_any; demand: Err whenever a field larger than the cap is not wholly inside the reader's buffer when it is asked for (computed from the field's offset and the refill grid), and peak live heap <= 768 + max_alloc_size. Non-trivial: nodes of >= 2 bytes, template cases, nodes where a limit must reject a model-valid datum, and seeds; tree nodes are pairwise distinct (schema, byte string) pairs by construction.",
 		us.iter().filter(|u| u.hostile).count(),
 		p.cap_hostile,
 		if thorough { 2 } else { 1 },
@@ -1423,6 +1523,7 @@ pub fn run(rep: &mut Report) {
 		us.iter().filter(|u| u.typed.is_some()).count(),
 		K_MEM,
 		seeds(thorough).len(),
+		scratch::cases().len(),
 	);
 	rep.assumptions.push("a decode that returned Err/Ok without the 1-byte-refill reader having reported end of input behaves identically on every extension of its input (the decoder is deterministic in the bytes it has read); within the depth bound no path can see the end of the input earlier than that reader does (max_alloc_size 64 >= depth bound)".into());
 	rep.assumptions.push("limits are judged only where the reference model (vmodel) accepts the input as a datum; with an ignoring target only when the datum is written without block byte sizes (a sized block is skipped, not visited)".into());
@@ -1430,7 +1531,7 @@ pub fn run(rep: &mut Report) {
 
 	let unit_horizon = Duration::from_secs(if thorough { 3000 } else { 300 });
 	// seeds run concurrently with the trees
-	let (seed_rep, results): (Report, Vec<UnitOut>) = rayon::join(
+	let (seed_rep, results): (Report, (Report, Vec<UnitOut>)) = rayon::join(
 		|| {
 			// the seeds are dealt to 4 lanes of workers (a broken decoder makes many of them run into
 			// their CPU horizon one after the other)
@@ -1450,8 +1551,20 @@ pub fn run(rep: &mut Report) {
 			}
 			r
 		},
-		|| us.par_iter().map(|u| drive_unit(u, &tier, unit_horizon)).collect(),
+		|| {
+			rayon::join(
+				|| {
+					let mut r = Report::new("C04", &tier);
+					drive_templates(&mut r);
+					r
+				},
+				|| us.par_iter().map(|u| drive_unit(u, &tier, unit_horizon)).collect::<Vec<UnitOut>>(),
+			)
+		},
 	);
+	let (tpl_rep, results) = results;
+	rep.cover.merge(tpl_rep.cover);
+	rep.violations.extend(tpl_rep.violations);
 	rep.cover.merge(seed_rep.cover);
 	rep.violations.extend(seed_rep.violations);
 	let mut nontrivial_total: u64 = rep.cover.nontrivial.len() as u64;
@@ -1482,6 +1595,13 @@ pub fn run(rep: &mut Report) {
 	for k in ["hungry_nodes", "hungry_in_fixed_size_read", "model_valid_nodes", "depth_limit_rejections_demanded", "seq_limit_rejections_demanded", "alloc_limit_rejections_demanded", "slice_ok_zero_alloc_checked", "seeds_run", "depth_limit_rejections_demanded_of_ignoring_target", "seq_limit_rejections_demanded_of_ignoring_target", "depth_limit_rejections_demanded_of_typed_target"] {
 		if c(k) == 0 {
 			machinery(&format!("C04 vacuity guard: counter {k} is 0"));
+		}
+	}
+	if c("scratch_templates_completed") == 1 {
+		for k in ["scratch_filled_to_the_cap_then_larger_field_refused", "scratch_gathered_fields_within_the_cap_accepted", "scratch_cases_where_a_field_above_the_cap_must_be_refused"] {
+			if c(k) == 0 {
+				machinery(&format!("C04 vacuity guard: counter {k} is 0"));
+			}
 		}
 	}
 	if c("seed_outcome_Ok") == 0 || c("seed_outcome_Err") == 0 {
